@@ -1,7 +1,7 @@
 """C15 -- concurrent API use causes no data race, panic or torn view of running models.
 
 A TLA+ specification cannot observe memory accesses; the Go race detector can, without false positives.
-What the specification contributes: Sched.tla names the shared variables and the lock each action holds
+What the specification contributes: LockDiscipline.tla lists every access site of the shared scheduler state with the locks held
 (the unlocked readers of the pinned tree -- PsHandler, findRunnerToUnload's sort -- are exactly its
 RaceCandidates), the workloads create the concurrent situations those candidates need (load / unload /
 expire churn under ps, generate, chat, copy, delete ...), and Trace_Ps.tla judges the running-models
@@ -48,6 +48,25 @@ def run(tier="quick", seed=1, replay=None):
     quick = tier == "quick"
     cov = dict(samples=[], evaluations=0, distinct_nontrivial=0)
     with vf.scratch("vf-c15-") as wd:
+        # the lock discipline as a table (LockDiscipline.tla): TLC computes the unprotected pairs; they must be exactly the listed
+        # findings, and the two repaired defects must reappear when their switch is turned off
+        def candidates(ps, lu):
+            cfg = vf.write_cfg(wd, f"LD_{ps}_{lu}.cfg", {"PsLocksTable": ps, "LoadingUnderLoaded": lu}, "")
+            r = vf.tlc("LockDiscipline", cfg, wd, timeout=300)
+            vals = vf.printed_json(r["out"])
+            if not vals:
+                raise vf.Inconclusive("LockDiscipline.tla did not evaluate:\n" + r["out"][-1500:])
+            return {tuple(c) for c in vals[0]["candidates"]}
+        cur = candidates("TRUE", "TRUE")
+        known_races = [k for k in vf.load_findings(PROP) if "race" in k]
+        unmatched = [c for c in cur if not any(re.search(k["race"]["reader_func"], c[0]) and re.search(k["race"]["field"], c[1]) for k in known_races)]
+        unused = [k["id"] for k in known_races if not any(re.search(k["race"]["reader_func"], c[0]) and re.search(k["race"]["field"], c[1]) for c in cur)]
+        if unmatched or unused:
+            raise vf.Inconclusive(f"the lock-discipline table and the list of findings disagree: unprotected pairs without a finding {unmatched}, findings without a pair {unused}")
+        if ("PsHandler", "loaded") not in candidates("FALSE", "TRUE") or ("filterGPUsWithoutLoadingModels", "loading") not in candidates("TRUE", "FALSE"):
+            raise vf.Inconclusive("LockDiscipline.tla no longer shows the two repaired defects when their switches are off")
+        cov["lock_discipline"] = {"unprotected_pairs_current_code": sorted(list(c) for c in cur), "equals_listed_findings": True,
+                                  "repaired_defects_reappear_with_switch_off": ["PsHandler/loaded,model", "filterGPUsWithoutLoadingModels/loading"]}
         trace = os.path.join(wd, "trace.ndjson")
         env = dict(VF_OUT=trace, VF_SEED=str(seed), VF_OPS="100" if quick else "200", VF_ROUNDS="6" if quick else "30")
         rc, out = vf.go_test2("./server", "^TestVFRace$", wd, vf.harness_overlay(["server"]), env=env,
